@@ -30,7 +30,7 @@ class C04(HistoryProp):
     rule = ('histories of 10-40 operations over 2-3 engines: load a generated script (overwrite on/off; the SAME script '
             'text is often loaded into several engines), assert_fact, retract/retractall via query, register a Python '
             'predicate, clear, create atoms, open a query, step a chosen open query (next), close a chosen open query - '
-            'the rule sequence IS the interleaving; one case in three starts with compiled facts that hold `_` inside structures and two uses of one such fact opened side by side. Additionally, per run: 60 (thorough 1500) histories with one THREAD per engine in lock step (an operation that only finishes once another engine's suspended query is closed is a violation) and 4 (40) cases of 2-3 engines each holding a search suspended 60-330 levels deep, advanced in a generated interleaving, against each engine alone. Oracles: (1) every observation equals that of independent reference '
+            'the rule sequence IS the interleaving; one case in three starts with compiled facts that hold `_` inside structures and two uses of one such fact opened side by side. Additionally, per run: 60 (thorough 1500) histories with one THREAD per engine in lock step (an operation that only finishes once a suspended query of another engine is closed is a violation) and 4 (40) cases of 2-3 engines each holding a search suspended 60-330 levels deep, advanced in a generated interleaving, against each engine alone. Oracles: (1) every observation equals that of independent reference '
             'models (one R per engine); (2) projection: the operations of each single engine replayed on a fresh '
             'engine that is alone give the same observations; (3) atoms are one object per engine and never shared '
             'between engines; (4) thread tier: per-engine histories on 2-4 threads (sys.setswitchinterval(1e-6), '
@@ -225,7 +225,7 @@ class C04(HistoryProp):
     def lockstep_checks(self, tier, seed):
         """the histories of the main search, but every engine is driven by a thread of its own; one operation at a time
         in history order (the harness owns the schedule, so the run is deterministic).  Observations must equal the
-        reference's; an operation that only finishes once another engine's suspended query is closed is a violation."""
+        reference's; an operation that only finishes once a suspended query of another engine is closed is a violation."""
         from ..gen import Src
         import hashlib
         runs = 60 if tier == 'quick' else 1500
